@@ -9,12 +9,13 @@ def custom_native(ip, runner):
     code = c04_terrapin.NATIVE % {'native': os.path.join(VERIF, 'native')}
     return [native_bounded(runner, 'post_process_findings', 'the Terrapin warning is carried by exactly the ciphers/MACs the published rule names; advisory note and addition-suppression exact',
                            code, 'role {server, client} x marker {own, other, none} x ChaCha {none, db name, unknown name} x CBC {none, 4 db shapes, unknown name} x ETM {none, 2 db sets, unknown name}: 432 peers rendered through output()',
-                           'ssh_audit:post_process_findings')]
+                           'ssh_audit:post_process_findings (run-time, enumerated)')]
 
 
 def build(chk, ip, runner):
     chk.design_ref = 'DESIGN.md section 5 C04'
-    chk.units = c04_terrapin.helper_units() + c04_terrapin.add_warning_units()
+    chk.units = c04_terrapin.helper_units() + c04_terrapin.add_warning_units() + c04_terrapin.body_unit_list({'chacha': 2, 'cbc': 3, 'etm': 4})
+    chk.stubs = c04_terrapin.body_stubs()
     chk.customs = [custom_native]
     chk.level = 'other'
     chk.explanation = ('selectors and table editor proved (unbounded lists / entries of 1..4 cells); the combining logic of '
